@@ -14,7 +14,7 @@ import json, os
 import vlib
 
 COQ_TARGET = "props/C18.v"
-THEOREMS = ["C18_loop_is_lex", "C18_separator_step", "C18_newline_step", "C18_get_token", "C18_comment_step",
+THEOREMS = ["C18_loop_is_lex", "C18_loop_is_lex_plain", "C18_separator_step", "C18_newline_step", "C18_get_token", "C18_comment_step",
             "C18_comment_at_eof", "C18_layout_insensitive", "C18_fullwidth_command_char", "C18_dispatch_on_zen2han",
             "C18_note_reader_partial", "C18_notes_layout_partial"]
 DRIVERS = ["core"]
